@@ -66,6 +66,11 @@ var mateInOne = []string{
 	"r1bqkb1r/pppp1ppp/2n2n2/4p2Q/2B1P3/8/PPPP1PPP/RNB1K1NR w KQkq - 4 4",
 	"7k/5Q2/6K1/8/8/8/8/8 w - - 2 2",
 	"rnbqkbnr/pppp1ppp/8/4p3/6P1/5P2/PPPPP2P/RNBQKBNR b KQkq - 0 2",
+	// the mated king still holds a castling right and the squares towards its rook are empty: castling is no way out of check
+	"4k2r/3ppp2/8/8/8/K7/8/1R3q2 w k - 0 1",
+	"r3k3/3ppp2/8/8/8/7K/8/2q3R1 w q - 0 1",
+	"1r3Q2/8/k7/8/8/8/3PPP2/4K2R b K - 0 1",
+	"2Q3r1/8/7k/8/8/8/3PPP2/R3K3 b Q - 0 1",
 }
 
 var terminal = []string{
